@@ -6,6 +6,7 @@ package main
 
 import (
 	"bufio"
+	"bytes"
 	"crypto/elliptic"
 	"encoding/hex"
 	"encoding/json"
@@ -13,6 +14,7 @@ import (
 	"io"
 	"math/big"
 	"os"
+	"strconv"
 
 	"github.com/tjfoc/gmsm/sm2"
 )
@@ -539,3 +541,64 @@ func c13run(args []string) error {
 }
 
 func init() { cmds["c13-run"] = c13run }
+
+// c13-sweep <template.json> <n> <out.json>: the exchange of the template with ephemeral scalar r_A = 2..n and every key
+// length of the template's "klens"; reports the exchanges in which a party failed or the parties disagree (each is then
+// judged against the specification like any other case) and the number of exchanges made
+func c13sweep(args []string) error {
+	b, err := os.ReadFile(args[0])
+	if err != nil {
+		return err
+	}
+	var c map[string]interface{}
+	if err := json.Unmarshal(b, &c); err != nil {
+		return err
+	}
+	n, err := strconv.Atoi(args[1])
+	if err != nil {
+		return err
+	}
+	da, db, rb := privOf(c["da"].(string)), privOf(c["db"].(string)), privOf(c["rb"].(string))
+	ida, idb := idBytes(c["ida"].(map[string]interface{})), idBytes(c["idb"].(map[string]interface{}))
+	odd, zero := []map[string]interface{}{}, []map[string]interface{}{}
+	var last map[string]interface{}
+	total := 0
+	for i := 2; i <= n; i++ {
+		ra := privOf(strconv.FormatInt(int64(i), 16))
+		for _, kl := range c["klens"].([]interface{}) {
+			klen := int(kl.(float64))
+			total++
+			var why string
+			got := map[string]interface{}{}
+			pan := recoverStr(func() {
+				ka, s1a, s2a, ea := sm2.KeyExchangeA(klen, ida, idb, da, &db.PublicKey, ra, &rb.PublicKey)
+				kb, s1b, s2b, eb := sm2.KeyExchangeB(klen, ida, idb, db, &da.PublicKey, rb, &ra.PublicKey)
+				got["a"] = map[string]interface{}{"k": ints(ka), "s1": ints(s1a), "s2": ints(s2a), "err": ea != nil}
+				got["b"] = map[string]interface{}{"k": ints(kb), "s1": ints(s1b), "s2": ints(s2b), "err": eb != nil}
+				switch {
+				case ea != nil || eb != nil:
+					why = fmt.Sprint("error: ", ea, " / ", eb)
+				case !bytes.Equal(ka, kb) || !bytes.Equal(s1a, s1b) || !bytes.Equal(s2a, s2b):
+					why = "parties disagree"
+				case len(ka) != klen:
+					why = fmt.Sprintf("key of %d bytes", len(ka))
+				case len(bytes.Trim(ka, "\x00")) == 0 && len(zero) < 2:
+					// a key of zero bytes only: the specification confirms that this is the standard's value
+					zero = append(zero, map[string]interface{}{"ra": strconv.FormatInt(int64(i), 16), "klen": klen, "why": "all-zero key", "got": got})
+				}
+			})
+			if pan != "" {
+				why = "panic: " + pan
+				got["panic"] = pan
+			}
+			last = map[string]interface{}{"ra": strconv.FormatInt(int64(i), 16), "klen": klen, "why": "last exchange of the sweep", "got": got}
+			if why != "" && len(odd) < 8 {
+				odd = append(odd, map[string]interface{}{"ra": strconv.FormatInt(int64(i), 16), "klen": klen, "why": why, "got": got})
+			}
+		}
+	}
+	out, _ := json.Marshal(map[string]interface{}{"exchanges": total, "odd": odd, "zero": zero, "last": last})
+	return os.WriteFile(args[2], out, 0o644)
+}
+
+func init() { cmds["c13-sweep"] = c13sweep }
